@@ -2,7 +2,7 @@
 generator or queue.  Every request is evaluated in a forked child of that pristine state, so a reference
 stream cannot be influenced by anything the history under test did (module/class-level caches included).
 
-Protocol (stdin/stdout, binary): 4-byte little-endian length + pickle((kind, case, v)) ->
+Protocol (stdin/stdout, binary): 4-byte little-endian length + pickle((kind, case, v[, cpu seconds])) ->
 4-byte length + pickle(('ok', value) | ('err', text)).  Kinds (see c10._ref_eval): 'g' / 'q' the packed chunks of
 one pristine generator / queue of lineage v (one per draw / pop: the references of all prefixes), 'k' / 'K' the
 value of one / several stimulus-function calls, 'h' the history under test itself (so that nothing an earlier
@@ -15,6 +15,7 @@ import sys
 
 def main():
     from harness import c10
+    c10.leash()     # die with the check that started us (also set by the parent before exec), as do our children
     c10._stim()
     import psiaudio.queue  # noqa: F401
     inp, out = sys.stdin.buffer, sys.stdout.buffer
@@ -23,9 +24,9 @@ def main():
         if len(hdr) < 4:
             return
         (n,) = struct.unpack('<I', hdr)
-        kind, case, v = pickle.loads(inp.read(n))
+        kind, case, v, cpu = (tuple(pickle.loads(inp.read(n))) + (None,))[:4]
         try:
-            val = ('ok', c10.in_child(c10._ref_eval, kind, case, v))
+            val = ('ok', c10.in_child(c10._ref_eval, kind, case, v, cpu=cpu))
         except Exception as e:  # noqa
             val = ('err', f'{type(e).__name__}: {e}')
         data = pickle.dumps(val)
